@@ -91,10 +91,6 @@ Proof.
   destruct (werr_cases _ _ R1 Hnf) as ([Hc|[Hc|[Hc|Hc]]] & E2); rewrite Hc in E2; discriminate E2.
 Qed.
 
-Definition no_setgid_p (s : fsys) (sv : sview) (follow : bool) (p : str) : Prop :=
-  forall par name md, klookup s sv false follow p = WNeg par name md ->
-                      is_setgid (m_mode (meta_of (f_heap s) par)) = false.
-
 (* ---- the creating calls ---------------------------------------------------------------------------------------------------------------- *)
 Section Steps.
   Variables (s : fsys) (sv : sview) (p cl : str).
@@ -103,14 +99,14 @@ Section Steps.
   Notation v := (sv_view sv).
 
   Theorem step_mkdir_p (perm : N) :
-    resolved s sv SlLstat p -> no_setgid_p s sv false p ->
+    resolved s sv SlLstat p ->
     (fst (mkdir s v p perm), proj_res Linux (snd (mkdir s v p perm))) = k_mkdir s sv p perm.
   Proof.
-    intros Hr Hsg. pose proof (resolved_nofuel _ _ _ _ Hr) as Hk1. destruct Hr as (R & Hnf).
+    intros Hr. pose proof (resolved_nofuel _ _ _ _ Hr) as Hk1. destruct Hr as (R & Hnf).
     change (follow_of SlLstat) with false in R, Hk1. change (precise_of SlLstat) with true in R.
     destruct (np_pm s sv p cl Hnp false Hk1) as (Hkn & Hkg & Hpm).
     rewrite (mkdir_nonempty s v _ perm (proj1 Hnp)). cbv zeta.
-    unfold k_mkdir. rewrite Hpm. unfold no_setgid_p in Hsg.
+    unfold k_mkdir. rewrite Hpm.
     pose proof (np_final s sv p false) as Hfin.
     destruct (klookup s sv false false p) as [par kind name n|par name md| |e] eqn:HK; cbn [walk_rel] in R.
     - destruct (Hkn _ _ _ _ eq_refl) as (-> & ->). destruct Hfin as (F1 & _). destruct R as (R1 & _).
@@ -120,8 +116,7 @@ Section Steps.
       rewrite R1, V2, R3, V1, F1. cbn [is_not_exist negb orb].
       rewrite (admin_perm_on s sv par _ H) by (apply node_is_dir_valid; exact F2).
       rewrite (admin_kperm s sv par 3 H) by (apply node_is_dir_valid; exact F2). cbn [negb].
-      unfold create_dir, alloc_child, kmeta, new_meta, new_owner_gid. rewrite (Hsg _ _ _ eq_refl), (sh_os _ _ H). cbn [fst dir_mode andb].
-      rewrite land_dir_bits. reflexivity.
+      rewrite create_dir_alloc by exact (sh_os _ _ H). reflexivity.
     - destruct R.
     - destruct R as (R1 & R2). destruct (werr_cases _ _ R1 Hnf) as (Hc & ->).
       destruct Hc as [Hc|[Hc|[Hc|Hc]]]; rewrite Hc in *; try reflexivity.
@@ -129,13 +124,13 @@ Section Steps.
   Qed.
 
   Theorem step_symlink_p (t : str) :
-    resolved s sv SlLstat p -> no_setgid_p s sv false p ->
+    resolved s sv SlLstat p ->
     (fst (symlink s v t p), proj_res Linux (snd (symlink s v t p))) = k_symlink s sv (clean Linux t) p.
   Proof.
-    intros Hr Hsg. pose proof (resolved_nofuel _ _ _ _ Hr) as Hk1. destruct Hr as (R & Hnf).
+    intros Hr. pose proof (resolved_nofuel _ _ _ _ Hr) as Hk1. destruct Hr as (R & Hnf).
     change (follow_of SlLstat) with false in R, Hk1. change (precise_of SlLstat) with true in R.
     destruct (np_pm s sv p cl Hnp false Hk1) as (Hkn & Hkg & Hpm).
-    unfold symlink, k_symlink. rewrite Hpm. unfold no_setgid_p in Hsg.
+    unfold symlink, k_symlink. rewrite Hpm.
     pose proof (np_final s sv p false) as Hfin.
     destruct (clean Linux t) as [|t0 t'] eqn:Et; [exfalso; exact (clean_nonempty t Et)|]. rewrite <- Et. clear Et t0 t'.
     destruct (klookup s sv false false p) as [par kind name n|par name md| |e] eqn:HK; cbn [walk_rel] in R.
@@ -146,7 +141,7 @@ Section Steps.
       rewrite R1, V2, R3, V1, F1. cbn [is_not_exist negb orb].
       rewrite (admin_perm_on s sv par _ H) by (apply node_is_dir_valid; exact F2).
       rewrite (admin_kperm s sv par 3 H) by (apply node_is_dir_valid; exact F2). cbn [negb].
-      unfold create_symlink, alloc_child, new_owner_gid. rewrite (Hsg _ _ _ eq_refl), (sh_os _ _ H). reflexivity.
+      rewrite create_symlink_alloc, (sh_os _ _ H). reflexivity.
     - destruct R.
     - destruct R as (R1 & R2). destruct (werr_cases _ _ R1 Hnf) as (Hc & ->).
       destruct Hc as [Hc|[Hc|[Hc|Hc]]]; rewrite Hc in *; try reflexivity.
@@ -223,17 +218,17 @@ Section OpenP.
   Qed.
 
   Theorem step_open_create_p :
-    resolved s sv SlLstat p -> resolved s sv SlEval p -> no_setgid_p s sv true p ->
+    resolved s sv SlLstat p -> resolved s sv SlEval p ->
     has flag O_CREATE = true -> has flag O_EXCL = false ->
     open_sim (open_file s v vi p flag perm) (k_open s sv p flag perm).
   Proof.
-    intros Hr0 Hr Hsg Hcr Hex. pose proof (np_pm_cases Hr0) as Hcase. destruct Hr as (R & Hnf).
+    intros Hr0 Hr Hcr Hex. pose proof (np_pm_cases Hr0) as Hcase. destruct Hr as (R & Hnf).
     pose proof (resolve_nosym_p s sv SlEval p) as Hns.
     change (follow_of SlEval) with true in R. change (precise_of SlEval) with true in R.
     pose proof (np_final s sv p true) as Hfin. pose proof (sh_admin _ _ H) as Hadm.
     rewrite (open_file_nf _ _ _ _ _ _ (proj1 Hnp)), Hcr, Hex. cbn [andb]. unfold open_nf. cbv beta iota zeta.
     unfold k_open, decode_flags. rewrite Hcr, Hex. cbv beta iota zeta. cbn [negb].
-    unfold no_setgid_p in Hsg.
+   
     set (tr := has flag O_TRUNC). set (wr := negb (N.eqb (N.land flag 3) 0)).
     set (r := search_node s v p SlEval) in *.
     destruct Hcase as [(E1 & e0 & E2)|(par0 & ->)].
@@ -256,8 +251,7 @@ Section OpenP.
       rewrite R1, V2, R3, V1, F1. cbn [is_file_exists is_not_exist negb andb orb].
       rewrite (admin_perm_on s sv par _ H) by (apply node_is_dir_valid; exact F2).
       rewrite (admin_kperm s sv par 3 H) by (apply node_is_dir_valid; exact F2). cbn [negb].
-      unfold create_file, alloc_child, kmeta, new_meta, new_owner_gid.
-      rewrite (Hsg _ _ _ eq_refl), (sh_os _ _ H). cbn [file_mode andb]. osim.
+      rewrite create_file_alloc by exact (sh_os _ _ H). osim.
     - destruct R.
     - destruct R as (R1 & R2). destruct (werr_cases _ _ R1 Hnf) as (Hc & ->).
       destruct Hc as [Hc|[Hc|[Hc|Hc]]]; rewrite Hc in *; try osim.
@@ -265,17 +259,17 @@ Section OpenP.
   Qed.
 
   Theorem step_open_excl_p :
-    resolved s sv SlLstat p -> no_setgid_p s sv false p ->
+    resolved s sv SlLstat p ->
     has flag O_CREATE = true -> has flag O_EXCL = true ->
     open_sim (open_file s v vi p flag perm) (k_open s sv p flag perm).
   Proof.
-    intros Hr Hsg Hcr Hex. pose proof (resolved_nofuel _ _ _ _ Hr) as Hk1. destruct Hr as (R & Hnf).
+    intros Hr Hcr Hex. pose proof (resolved_nofuel _ _ _ _ Hr) as Hk1. destruct Hr as (R & Hnf).
     change (follow_of SlLstat) with false in R, Hk1. change (precise_of SlLstat) with true in R.
     destruct (np_pm s sv p cl Hnp false Hk1) as (Hkn & Hkg & Hpm).
     pose proof (np_final s sv p false) as Hfin. pose proof (sh_admin _ _ H) as Hadm.
     rewrite (open_file_nf _ _ _ _ _ _ (proj1 Hnp)), Hcr, Hex. cbn [andb]. unfold open_nf. cbv beta iota zeta.
     unfold k_open, decode_flags. rewrite Hcr, Hex. cbv beta iota zeta. cbn [negb]. rewrite Hpm.
-    unfold no_setgid_p in Hsg.
+   
     set (tr := has flag O_TRUNC). set (wr := negb (N.eqb (N.land flag 3) 0)).
     set (r := search_node s v p SlLstat) in *.
     destruct (klookup s sv false false p) as [par kind name n|par name md|a b c d|e] eqn:HK; cbn [walk_rel] in R.
@@ -288,8 +282,7 @@ Section OpenP.
       rewrite R1, V2, R3, V1, F1. cbn [is_file_exists is_not_exist negb andb orb].
       rewrite (admin_perm_on s sv par _ H) by (apply node_is_dir_valid; exact F2).
       rewrite (admin_kperm s sv par 3 H) by (apply node_is_dir_valid; exact F2). cbn [negb].
-      unfold create_file, alloc_child, kmeta, new_meta, new_owner_gid.
-      rewrite (Hsg _ _ _ eq_refl), (sh_os _ _ H). cbn [file_mode andb]. osim.
+      rewrite create_file_alloc by exact (sh_os _ _ H). osim.
     - destruct R.
     - destruct R as (R1 & R2). destruct (werr_cases _ _ R1 Hnf) as (Hc & ->).
       destruct Hc as [Hc|[Hc|[Hc|Hc]]]; rewrite Hc in *; try osim.
@@ -304,10 +297,10 @@ Section WriteFileP.
   Notation v := (sv_view sv).
 
   Theorem step_write_file_p :
-    resolved s sv SlLstat p -> resolved s sv SlEval p -> no_setgid_p s sv true p ->
+    resolved s sv SlLstat p -> resolved s sv SlEval p ->
     (fst (write_file s v p data perm), proj_res Linux (snd (write_file s v p data perm))) = go_write_file s sv p data perm.
   Proof.
-    intros Hr0 Hr Hsg. pose proof (np_pm_cases s sv p cl Hnp Hr0) as Hcase. destruct Hr as (R & Hnf).
+    intros Hr0 Hr. pose proof (np_pm_cases s sv p cl Hnp Hr0) as Hcase. destruct Hr as (R & Hnf).
     pose proof (resolve_nosym_p s sv SlEval p) as Hns.
     change (follow_of SlEval) with true in R. change (precise_of SlEval) with true in R.
     pose proof (np_final s sv p true) as Hfin. pose proof (sh_admin _ _ H) as Hadm.
@@ -315,7 +308,7 @@ Section WriteFileP.
     unfold write_file, go_write_file. rewrite (open_wct _ _ _ _ _ Hne). cbv zeta.
     unfold k_open. change (decode_flags (O_WRONLY + O_CREATE + O_TRUNC)) with (OF 1 true false true false).
     cbv iota beta zeta. change (negb (N.eqb (N.land (acc_mask 1 true) 2) 0)) with true.
-    change (acc_mask 1 true) with 2%N. cbn [andb negb orb]. unfold no_setgid_p in Hsg.
+    change (acc_mask 1 true) with 2%N. cbn [andb negb orb].
     set (r := search_node s v p SlEval) in *.
     destruct Hcase as [(E1 & e0 & E2)|(par0 & ->)].
     { rewrite E2. rewrite <- E1, E2 in R. cbn [walk_rel] in R. destruct R as (R1 & R2).
@@ -340,11 +333,8 @@ Section WriteFileP.
       rewrite (admin_perm_on s sv par _ H) by (apply node_is_dir_valid; exact F2).
       rewrite (admin_kperm s sv par 3 H) by (apply node_is_dir_valid; exact F2). cbn [negb].
       destruct (node_is_dir_get _ _ F2) as (chp & mp & Hgp).
-      unfold create_file, alloc_child, kmeta, new_meta, new_owner_gid.
-      rewrite (Hsg _ _ _ eq_refl), (sh_os _ _ H). cbn [file_mode andb].
-      set (x := NFile [] 1 (f_last_id s + 1)
-                  {| m_mode := N.lor 0 (N.ldiff (N.land perm FILE_MODE_MASK) (v_umask v));
-                     m_uid := us_uid (v_user v); m_gid := us_gid (v_user v) |}).
+      rewrite create_file_alloc by exact (sh_os _ _ H). unfold alloc_child. cbv iota beta.
+      set (x := NFile [] 1 (f_last_id s + 1) (kmeta (f_heap s) par v 0 (N.land perm FILE_MODE_MASK) false)).
       pose proof (get_alloc_new (f_heap s) par name x chp mp Hgp) as Hnew.
       set (s1 := {| f_heap := add_child (f_heap s ++ [x]) par name (length (f_heap s));
                     f_last_id := (f_last_id s + 1)%N; f_vols := f_vols s |}) in *.
@@ -443,8 +433,7 @@ Module StepNamePathExamples.
     destruct (rel_inst up_x 1 [] s_x eq_refl ltac:(good_tac)) as (Hnp & Hr).
     split; [|split; vm_compute; reflexivity].
     apply (step_mkdir_p tree_fs acwdsv _ s_x acwd_hyps Hnp).
-    - apply (Hr SlLstat); vm_compute; discriminate.
-    - intros par name md E. vm_compute in E. injection E as <- _ _. reflexivity.
+    apply (Hr SlLstat); vm_compute; discriminate.
   Qed.
 
   Example write_file_rel_instance :
@@ -458,7 +447,6 @@ Module StepNamePathExamples.
     apply (step_write_file_p tree_fs acwdsv _ s_x [1%N; 2%N] 420 acwd_hyps Hnp).
     - apply (Hr SlLstat); vm_compute; discriminate.
     - apply (Hr SlEval); vm_compute; discriminate.
-    - intros par name md E. vm_compute in E. injection E as <- _ _. reflexivity.
   Qed.
 
   (* O_CREATE|O_EXCL|O_RDWR of the existing link "top" (relative, not followed): EEXIST on both sides *)
@@ -469,8 +457,7 @@ Module StepNamePathExamples.
   Proof.
     destruct (rel_inst s_top 0 [] s_top eq_refl ltac:(good_tac)) as (Hnp & Hr).
     split; [|vm_compute; reflexivity].
-    apply (step_open_excl_p tree_fs acwdsv 0 _ s_top _ 420 acwd_hyps Hnp); [| |reflexivity|reflexivity].
-    - apply (Hr SlLstat); vm_compute; discriminate.
-    - intros par name md E. vm_compute in E. discriminate E.
+    apply (step_open_excl_p tree_fs acwdsv 0 _ s_top _ 420 acwd_hyps Hnp); [|reflexivity|reflexivity].
+    apply (Hr SlLstat); vm_compute; discriminate.
   Qed.
 End StepNamePathExamples.
